@@ -1,2 +1,64 @@
-(** C09 - placeholder *)
-From VG Require Import Model.Serve.
+(** C09 - Truncated or malformed streams never surface as success.
+    Statements only; proofs in Proofs/ReaderProofs.v, Proofs/EnvelopeProofs.v, Proofs/ResponseProofs.v. *)
+From VG Require Import Model.Bytes Model.Stream Model.Envelope Model.Reader.
+From VG Require Import Proofs.StreamProofs Proofs.ReaderProofs Proofs.EnvelopeProofs.
+Open Scope Z_scope.
+
+(** What readRequestMessage makes of an enveloped request body, by its bytes: a message only when
+    a legal envelope is there in full and all the bytes it announces follow; otherwise the error
+    named here - never a shorter message, never a clean end unless nothing at all was sent. *)
+Theorem C09_request_message_by_bytes : forall cx c u,
+  cenv cx = Some c ->
+  let fl := flat u in
+  match read_request_message cx u with
+  | MsgOk p comp u2 =>
+      5 <= zlen fl /\
+      exists env, decode_env c (ztake 5 fl) = Some env /\ e_trailer env = false /\ e_len env <= limit cx /\
+                  e_len env <= zlen (zdrop 5 fl) /\ p = ztake (e_len env) (zdrop 5 fl) /\ comp = e_compressed env /\
+                  flat u2 = zdrop (e_len env) (zdrop 5 fl) /\ u_term u2 = u_term u
+  | MsgErr e u2 rep =>
+      (zlen fl < 5 /\ rep = [] /\
+         e = match u_term u with EEOF => match fl with [] => EEOF | _ => EUnexpectedEOF end | t => t end) \/
+      (5 <= zlen fl /\ decode_env c (ztake 5 fl) = None /\ e = EInvalidArgument /\ rep = [EInvalidArgument]) \/
+      (5 <= zlen fl /\ exists env, decode_env c (ztake 5 fl) = Some env /\
+         ((e_trailer env = true /\ e = EInvalidArgument /\ rep = [EInvalidArgument]) \/
+          (e_trailer env = false /\ limit cx < e_len env /\ e = EResourceExhausted /\ rep = [EResourceExhausted]) \/
+          (e_trailer env = false /\ e_len env <= limit cx /\ zlen (zdrop 5 fl) < e_len env /\ e = cut_status (u_term u) /\ rep = [])))
+  end.
+Proof. exact read_enveloped_spec. Qed.
+Print Assumptions C09_request_message_by_bytes.
+
+Theorem C09_cut_inside_envelope : forall cx c u,
+  cenv cx = Some c -> 0 < zlen (flat u) < 5 -> u_term u = EEOF ->
+  exists u2, read_request_message cx u = MsgErr EUnexpectedEOF u2 [].
+Proof. exact cut_inside_envelope. Qed.
+Print Assumptions C09_cut_inside_envelope.
+
+Theorem C09_cut_inside_message : forall cx c u env,
+  cenv cx = Some c -> 5 <= zlen (flat u) -> decode_env c (ztake 5 (flat u)) = Some env ->
+  e_trailer env = false -> e_len env <= limit cx -> zlen (zdrop 5 (flat u)) < e_len env -> u_term u = EEOF ->
+  exists u2, read_request_message cx u = MsgErr EUnexpectedEOF u2 [].
+Proof. exact cut_inside_message. Qed.
+Print Assumptions C09_cut_inside_message.
+
+(** the backend is never handed a message shorter than announced *)
+Theorem C09_message_is_complete : forall cx c u p comp u2,
+  cenv cx = Some c -> read_request_message cx u = MsgOk p comp u2 ->
+  exists env, decode_env c (ztake 5 (flat u)) = Some env /\ zlen p = e_len env /\ 0 <= e_len env.
+Proof. exact message_is_complete. Qed.
+Print Assumptions C09_message_is_complete.
+
+(** ... and the error reaches the backend's Read as an error, not as the end of the body *)
+Theorem C09_error_reaches_backend : forall f cx o r k e u rep,
+  tr_err r = None -> tr_envrem r = 0%nat -> (tr_buf r = None \/ tr_buf r = Some []) -> 0 < k ->
+  read_request_message cx (tr_up r) = MsgErr e u rep ->
+  (negb (tr_consumed_first r) && ecls_eqb e EEOF && first_may_be_empty cx = false) ->
+  fst (tr_read (S f) cx o r k) = ([], SErr e).
+Proof. exact tr_read_error_surfaces. Qed.
+Print Assumptions C09_error_reaches_backend.
+
+(** every one of the 256 flag bytes: rejected exactly when the protocol's specification says so *)
+Theorem C09_flag_bytes : forall k f b1 b2 b3 b4, wf_byte f = true ->
+  (decode_env k [f; b1; b2; b3; b4] = None <-> spec_legal k (Z.of_N f) = false).
+Proof. exact decode_env_flags. Qed.
+Print Assumptions C09_flag_bytes.
